@@ -419,6 +419,10 @@ def m_immutable(ctx, pre, act, obs, post):
         vs.append(V(f"{_site_any(pre, act)} | argument-mutated | substance,op={act['op']},outcome={outcome}",
                     f"{e1.act_str(act)} {outcome} and wrote to the Substance object(s) {changed} (attributes or hash changed: a "
                     f"Substance is a dictionary key in every container that holds it)", ctx['case']))
+    if ctx.get('first_changed'):
+        vs.append(V(f"{_site_any(pre, act)} | earlier-result-mutated | repeated-call,op={act['op']}",
+                    f"{e1.act_str(act)} made a second time with the same arguments altered what the FIRST call had returned "
+                    f"({ctx['first_changed']}): results of equal calls share structure", ctx['case']))
     if obs.get('lists_changed'):
         vs.append(V(f"{_site_any(pre, act)} | argument-mutated | list-argument,op={act['op']},outcome={outcome}",
                     f"{e1.act_str(act)} {outcome} and changed a list that was handed to it (it was "
